@@ -37,6 +37,19 @@ def main():
     block = "<!-- NUMBERS:BEGIN -->\n" + "\n".join(lines) + "\n<!-- NUMBERS:END -->"
     p = os.path.join(VERIF, "DESIGN.md")
     s = open(p).read()
+    # section 6: defects repaired, from known_findings.jsonl
+    rows = ["| property | commit | what failed | witness |", "|---|---|---|---|"]
+    for line in open(os.path.join(VERIF, "known_findings.jsonl")):
+        if line.strip():
+            r = json.loads(line)
+            if r.get("status") == "fixed":
+                esc = lambda t: str(t).replace("|", "\\|").replace("\n", " ")
+                rows.append("| {} | `{}` | {} | {} |".format(r["property"], r["commit"], esc(r.get("what", ""))[:260], esc(r.get("witness", ""))[:220]))
+    fblock = "<!-- FINDINGS:BEGIN -->\n" + "\n".join(rows) + "\n<!-- FINDINGS:END -->"
+    if "<!-- FINDINGS:BEGIN -->" in s:
+        a = s.index("<!-- FINDINGS:BEGIN -->")
+        b = s.index("<!-- FINDINGS:END -->") + len("<!-- FINDINGS:END -->")
+        s = s[:a] + fblock + s[b:]
     if "<!-- NUMBERS:BEGIN -->" in s:
         a = s.index("<!-- NUMBERS:BEGIN -->")
         b = s.index("<!-- NUMBERS:END -->") + len("<!-- NUMBERS:END -->")
